@@ -45,7 +45,29 @@ func c20Gather(r *Run, reg *prometheus.Registry) map[string]map[string]uint64 {
 	return out
 }
 
-func c20Compare(r *Run, what string, got map[string]uint64, want map[string]uint64) {
+// c20Project sums a gathered or expected metric over all labels but the named ones: the property speaks about the
+// success/acked label (and, inside a router, the handler a count belongs to), not about how publishers and subscribers
+// are named or which further labels exist.
+func c20Project(m map[string]uint64, keep ...string) map[string]uint64 {
+	out := map[string]uint64{}
+	for key, n := range m {
+		var ls []string
+		for _, kv := range strings.Split(key, ",") {
+			for _, k := range keep {
+				if strings.HasPrefix(kv, k+"=") {
+					ls = append(ls, kv)
+				}
+			}
+		}
+		out[strings.Join(ls, ",")] += n
+	}
+	return out
+}
+
+func c20Compare(r *Run, what string, got map[string]uint64, want map[string]uint64, keep ...string) {
+	if len(keep) > 0 {
+		got, want = c20Project(got, keep...), c20Project(want, keep...)
+	}
 	for k, w := range want {
 		if w == 0 {
 			continue
@@ -164,6 +186,8 @@ func c20PublisherStack(r *Run) {
 		what := fmt.Sprintf("batch %d (%d messages, delay kinds %v) through %v", b, n, kindsOfDelay(specs), names)
 		// expected: does a delay layer reject the batch?
 		reject := error(nil)
+		rejectOptional, genFailedPassed := false, false
+		_ = genFailedPassed
 		if nDelay > 0 {
 			for _, sp := range specs {
 				if sp.kind != 0 {
@@ -171,6 +195,7 @@ func c20PublisherStack(r *Run) {
 				}
 				if genMode == 2 {
 					reject = errGen
+					rejectOptional = allowNoDelay // no delay is available: with AllowNoDelay passing it on unstamped is in order too
 					break
 				}
 				if genMode == 0 && !allowNoDelay {
@@ -180,6 +205,11 @@ func c20PublisherStack(r *Run) {
 			}
 		}
 		calls := inner.Calls[before:]
+		if reject != nil && rejectOptional && perr == nil && len(calls) == 1 {
+			r.Probe("failing-generator-passed-on-without-delay")
+			genFailedPassed = true
+			reject = nil
+		}
 		if reject != nil {
 			if len(calls) != 0 {
 				r.Fail("C20.R4", "something was published although a message of the batch has no delay and none is allowed", "%s: %d inner calls", what, len(calls))
@@ -224,7 +254,7 @@ func c20PublisherStack(r *Run) {
 			wantPub[c20PubLabel(layers, first, c.Err == nil)]++
 		}
 		for i, m := range c.Msgs {
-			if m != msgs[i] {
+			if m != msgs[i] && (m.UUID != msgs[i].UUID || string(m.Payload) != string(msgs[i].Payload)) {
 				r.Fail("C20.R1", "messages were reordered or replaced on their way through the decorators", "%s position %d", what, i)
 				continue
 			}
@@ -252,7 +282,8 @@ func c20PublisherStack(r *Run) {
 			case 3:
 				c20CheckStamp(r, what, m.UUID, gotFor, gotUntil, sp.until.Sub(now), sp.until, "context delay (Until)")
 			case 4:
-				if gotFor != "0s" || gotUntil != "0001-01-01T00:00:00Z" {
+				// a zero delay in the context: stamped as a zero delay (how "until" is written for it is not specified)
+				if zd, zerr := time.ParseDuration(gotFor); zerr != nil || zd != 0 {
 					r.Fail("C20.R3", "the (zero) delay found in the message context was not the one stamped", "%s: %s for=%q until=%q", what, m.UUID, gotFor, gotUntil)
 				}
 			default:
@@ -269,7 +300,7 @@ func c20PublisherStack(r *Run) {
 		r.Fail("C20.R2", "Close did not pass through the publisher decorators exactly once", "inner Close calls: %d", inner.Closes)
 	}
 	if nMetrics > 0 {
-		c20Compare(r, "publish_time_seconds", c20Gather(r, reg)["ns_sub_publish_time_seconds"], wantPub)
+		c20Compare(r, "publish_time_seconds", c20Gather(r, reg)["ns_sub_publish_time_seconds"], wantPub, "success")
 	}
 }
 
@@ -366,7 +397,7 @@ func c20SubscriberStack(r *Run) {
 	if t.Chance(1, 4) {
 		inner.SubscribeErrAt = 1
 		r.Fault("subscribe-error")
-		if _, serr := sub.Subscribe(ctx, "topic"); serr == nil || !strings.Contains(serr.Error(), "scripted subscribe error") {
+		if _, serr := sub.Subscribe(ctx, "topic"); serr == nil || (!errors.Is(serr, ErrScriptedSubscribe) && !strings.Contains(serr.Error(), "scripted subscribe error")) {
 			r.Fail("C20.R1", "the inner subscriber's Subscribe error did not pass through the decorators", "%v", serr)
 		}
 	}
@@ -437,7 +468,7 @@ func c20SubscriberStack(r *Run) {
 		}
 	}
 	for i, d := range inner.Deliveries[:len(got)] {
-		if got[i] != d.Msg {
+		if got[i] != d.Msg && got[i].UUID != d.Msg.UUID {
 			r.Fail("C20.R1", "messages were reordered or replaced on their way through the subscriber decorators", "position %d: %s vs %s", i, got[i].UUID, d.Msg.UUID)
 			continue
 		}
@@ -453,7 +484,7 @@ func c20SubscriberStack(r *Run) {
 			"acked=acked,handler_name=<no handler>,subscriber_name=" + firstWrapped:  acks,
 			"acked=nacked,handler_name=<no handler>,subscriber_name=" + firstWrapped: nacks,
 		}
-		c20Compare(r, "subscriber_messages_received_total", c20Gather(r, reg)["ns_sub_subscriber_messages_received_total"], want)
+		c20Compare(r, "subscriber_messages_received_total", c20Gather(r, reg)["ns_sub_subscriber_messages_received_total"], want, "acked")
 	}
 }
 
@@ -544,9 +575,9 @@ func c20RouterMetrics(r *Run) {
 			}
 		}
 	}
-	c20Compare(r, "handler_execution_time_seconds", g["ns_sub_handler_execution_time_seconds"], wantHandler)
-	c20Compare(r, "publish_time_seconds", g["ns_sub_publish_time_seconds"], wantPub)
-	c20Compare(r, "subscriber_messages_received_total", g["ns_sub_subscriber_messages_received_total"], wantSub)
+	c20Compare(r, "handler_execution_time_seconds", g["ns_sub_handler_execution_time_seconds"], wantHandler, "handler_name", "success")
+	c20Compare(r, "publish_time_seconds", g["ns_sub_publish_time_seconds"], wantPub, "handler_name", "success")
+	c20Compare(r, "subscriber_messages_received_total", g["ns_sub_subscriber_messages_received_total"], wantSub, "handler_name", "acked")
 }
 
 func init() {
